@@ -184,9 +184,11 @@ def run_sqlite(schema, data, sql):
     con = sqlite3.connect(":memory:")
     try:
         for t, cols in schema.items():
-            con.execute(f'CREATE TABLE "{t}" (' + ", ".join(f'"{c}" INTEGER' for c in cols) + ")")
+            # "main.x" / "temp.x": schema-qualified tables (SQLite has both schemas in every connection)
+            qt = ".".join(f'"{p_}"' for p_ in t.split("."))
+            con.execute(f'CREATE TABLE {qt} (' + ", ".join(f'"{c}" INTEGER' for c in cols) + ")")
             for r in data.get(t, []):
-                con.execute(f'INSERT INTO "{t}" VALUES (' + ",".join("?" * len(cols)) + ")", r)
+                con.execute(f'INSERT INTO {qt} VALUES (' + ",".join("?" * len(cols)) + ")", r)
         cur = con.execute(sql)
         names = [d[0] for d in cur.description]
         return names, cur.fetchall()
